@@ -136,8 +136,9 @@ def analyse(obs: Obs, prog):
             # MissingAddress iff the sub-sample is statically empty, before the callee runs
             mis = [(c, x) for c, x in r.raises if (is_t(x, "ctor") and x[1] == "MissingAddress") or is_call(x, "MissingAddress")]
             emp = ("call", ("attr", sub, "static_is_empty"), (), ())
-            has_emp = lambda t: t == emp or (is_t(t, "bool") and t[1] == "and" and emp in t[2])
-            okm = len(mis) == 1 and cond_has(mis[0][0], has_emp, True) and (mis[0][1][2] == (ADDR,))
+            # the guard is exactly "the sub-map is statically empty": a narrower guard (e.g. `and isinstance(gen_fn, Distribution)`, seeded change C22-2) lets
+            # combinator-wrapped distributions (normal.vmap(), normal.mask(), or_else) be assessed against an empty map without MissingAddress
+            okm = len(mis) == 1 and cond_has(mis[0][0], lambda t: t == emp, True) and (mis[0][1][2] == (ADDR,))
             # ... but an empty sub-map is not a missing value when the callee makes no random choice (a deterministic @gen callee, a zero-length vmap / scan):
             # simulate gives such a trace an empty choice map, and assess(tr.get_choices(), tr.get_args()) must accept it
             only_emp = len(mis) == 1 and all(t == emp for t, p in mis[0][0] if p) and not any(mentions(t, P("gen_fn")) for t, p in mis[0][0])
